@@ -178,3 +178,19 @@ BENIGN += [
     dict(id="c20-unicode-handler-subsumed", props=["C20"], file=S + "cli.py",
          old="    except UnicodeDecodeError as err:\n        if args.debug:\n            raise\n        sys.stderr.write(f\"target document decode error: {err}\\n\")\n        sys.exit(1)\n", new=""),
 ]
+
+# a correct recursive comparison of arrays / objects is silent in C06 (it also removes the known finding F8b; C18
+# rightly objects to the unbounded recursion, see mutants.py)
+_EQ_TAIL = "    if isinstance(left, bool):\n        return isinstance(right, bool) and left == right\n\n    return left == right\n"
+BENIGN += [
+    dict(id="c06-rec-eq-correct", props=["C06"], file=S + "filter_expressions.py", old=_EQ_TAIL,
+         new="    if isinstance(left, bool):\n        return isinstance(right, bool) and left == right\n\n"
+             "    if isinstance(left, list) and isinstance(right, list):\n        return len(left) == len(right) and all(_eq(a, b) for a, b in zip(left, right))\n\n"
+             "    if isinstance(left, dict) and isinstance(right, dict):\n        return len(left) == len(right) and all(k in right and _eq(v, right[k]) for k, v in left.items())\n\n"
+             "    return left == right\n"),
+    dict(id="c06-rec-eq-correct-iterating-right", props=["C06"], file=S + "filter_expressions.py", old=_EQ_TAIL,
+         new="    if isinstance(left, bool):\n        return isinstance(right, bool) and left == right\n\n"
+             "    if isinstance(left, list) and isinstance(right, list):\n        return len(right) == len(left) and all(_eq(b, a) for a, b in zip(left, right))\n\n"
+             "    if isinstance(left, dict) and isinstance(right, dict):\n        return len(left) == len(right) and all(k in left and _eq(left[k], v) for k, v in right.items())\n\n"
+             "    return left == right\n"),
+]
